@@ -853,6 +853,8 @@ pub fn run(id: &str, tier: Tier, replay: Option<&str>) -> i32 {
                 }
             }
             let c07 = id == "C07";
+            // the families first: they are small and must not be what a wall-clock cap cuts off
+            run_families(&ctx, &acc, tier, c07);
             cases.par_iter().for_each(|c| {
                 if ctx.expired() {
                     acc.count("cases_skipped_by_cap", 1);
@@ -862,7 +864,6 @@ pub fn run(id: &str, tier: Tier, replay: Option<&str>) -> i32 {
                     acc.violation(v);
                 }
             });
-            run_families(&ctx, &acc, tier, c07);
             level = "exploration";
             rule = if c07 {
                 format!("every non-terminal of every grammar of the C05 space accepted with K in {ks:?}: all token strings over T + {{$}} of length <= k+1 are run through the automaton recovered from the generated source (minimized) and through the public unminimized LookaheadDFA; oracle = membership in the reference strong-LL(k) lookahead set of each production. Non-trivial = non-terminals with k >= 1. Second space, without grammars: every assignment of the k-complete token strings over 2-3 terminals (k = 1, 2, 3; strings of length k and shorter ones ending in $) to 2-3 productions or to none, canonical up to production renaming; parol's own from_k_tuples / unite / minimization (hook H6) build the automaton, which is checked the same way.")
